@@ -27,11 +27,15 @@ package aucoalesce
 //@ requires (msg != nil || syscall != nil) && (msg != nil ==> msgOK(msg)) && (syscall != nil ==> msgOK(syscall))
 //@ modifies alloc, msg.data, msg.error, msg.tags, syscall.data, syscall.error, syscall.tags
 //@ ensures[C15] fresh(result0) && result0.Data != nil && fresh(result0.Data)
+// C09: the event takes its identity from msg (the first record) when there is one, else from the syscall record.
+//@ ensures[C09] msg != nil ==> result0.Timestamp == msg.Timestamp && result0.Sequence == msg.Sequence && result0.Type == msg.RecordType
+//@ ensures[C09] msg == nil ==> result0.Timestamp == syscall.Timestamp && result0.Sequence == syscall.Sequence && result0.Type == syscall.RecordType
 //@ ensures[C15] (msg != nil ==> msgOK(msg)) && (syscall != nil ==> msgOK(syscall))
 //@ loop 0 invariant fresh(event) && event.Data != nil && fresh(event.Data) && (event.User.IDs == nil || fresh(event.User.IDs)) && (event.User.SELinux == nil || fresh(event.User.SELinux))
 //
 //@ func aucoalesce.addExecveRecord
 //@ frame-fresh[C15]
+//@ ensures[C09] event.Timestamp == old(event.Timestamp) && event.Sequence == old(event.Sequence) && event.Type == old(event.Type)
 //@ requires msgOK(execve) && event != nil && event.Data != nil
 //@ modifies event.*, elems(event.Warnings), mapOf(event.Data), alloc, execve.data, execve.error, execve.tags
 //@ ensures[C15] event.Data == old(event.Data)
@@ -40,6 +44,7 @@ package aucoalesce
 //
 //@ func aucoalesce.addPathRecord
 //@ frame-fresh[C15]
+//@ ensures[C09] event.Timestamp == old(event.Timestamp) && event.Sequence == old(event.Sequence) && event.Type == old(event.Type)
 //@ requires msgOK(path) && event != nil && event.Data != nil
 //@ modifies event.*, elems(event.Warnings), elems(event.Paths), alloc, path.data, path.error, path.tags
 //@ ensures[C15] event.Data == old(event.Data)
@@ -47,6 +52,7 @@ package aucoalesce
 //
 //@ func aucoalesce.addSockaddrRecord
 //@ frame-fresh[C15]
+//@ ensures[C09] event.Timestamp == old(event.Timestamp) && event.Sequence == old(event.Sequence) && event.Type == old(event.Type)
 //@ requires msgOK(sockaddr) && event != nil && event.Data != nil
 //@ modifies event.*, elems(event.Warnings), mapOf(event.Data), alloc, sockaddr.data, sockaddr.error, sockaddr.tags
 //@ ensures[C15] event.Data == old(event.Data)
@@ -54,6 +60,7 @@ package aucoalesce
 //
 //@ func aucoalesce.addFieldsToEventData
 //@ frame-fresh[C15]
+//@ ensures[C09] event.Timestamp == old(event.Timestamp) && event.Sequence == old(event.Sequence) && event.Type == old(event.Type)
 //@ requires msgOK(msg) && event != nil && event.Data != nil
 //@ modifies event.*, elems(event.Warnings), mapOf(event.Data), alloc, msg.data, msg.error, msg.tags
 //@ ensures[C15] event.Data == old(event.Data)
@@ -65,7 +72,73 @@ package aucoalesce
 //@ requires forall j int :: lo(msgs) <= j && j < hi(msgs) ==> msgOK(at(msgs, j))
 //@ modifies alloc, auparse.AuditMessage.data, auparse.AuditMessage.error, auparse.AuditMessage.tags
 //@ ensures[C15] isNil(result1) ==> fresh(result0)
+// C09: identity of the first record, or an error when there is no SYSCALL record.
+//@ requires len(msgs) >= 1
+//@ ensures[C09] isNil(result1) ==> result0 != nil && result0.Timestamp == msgs[0].Timestamp && result0.Sequence == msgs[0].Sequence && result0.Type == msgs[0].RecordType
+//@ ensures[C09] !isNil(result1) ==> result0 == nil
+//@ ensures[C09] (forall j int :: lo(msgs) <= j && j < hi(msgs) ==> at(msgs, j).RecordType != auparse.AUDIT_SYSCALL) ==> !isNil(result1)
+//@ loop 0 invariant forall j int :: lo(msgs) <= j && j <= lo(msgs) + rangeindex ==> at(msgs, j).RecordType != auparse.AUDIT_SYSCALL
+//@ loop 0 invariant (rangeindex >= 0 ==> special == msgs[0]) && (rangeindex == -1 ==> special == nil)
+//@ loop 1 invariant event.Timestamp == msgs[0].Timestamp && event.Sequence == msgs[0].Sequence && event.Type == msgs[0].RecordType
 //@ loop 0 invariant forall j int :: lo(msgs) <= j && j < hi(msgs) ==> msgOK(at(msgs, j))
 //@ loop 0 invariant (special == nil || msgOK(special)) && syscall == nil
 //@ loop 1 invariant fresh(event) && event.Data != nil && fresh(event.Data)
 //@ loop 1 invariant forall j int :: lo(msgs) <= j && j < hi(msgs) ==> msgOK(at(msgs, j))
+
+// The id caches are shared by all events: their map is only touched under the
+// cache's own mutex, and the mutex is released on every return.
+//@ guarded_by[C15] stringCache.mutex: stringCache.data
+//@ func (*aucoalesce.stringCache).lookup
+//@ lockfree[C15] c.mutex
+//@ requires c != nil && !held(c.mutex)
+//@ ensures[C15] !held(c.mutex)
+//@ func (*aucoalesce.stringCache).hardcode
+//@ lockfree[C15] c.mutex
+//@ requires c != nil && !held(c.mutex)
+//@ ensures[C15] !held(c.mutex)
+
+// The later stages receive only the event. event.Paths holds the PATH messages'
+// own maps (by reference), so these stages must not write through them either:
+// they write to the event, its own Data map, and objects they allocate.
+//@ func aucoalesce.setFileObject
+//@ frame-fresh[C15]
+//@ requires event != nil && pathIndexHint >= 0
+//@ modifies event.*, alloc
+//@ loop 1 invariant event.File != nil && fresh(event.File) && (event.File.SELinux == nil || fresh(event.File.SELinux))
+// C09: the file summary mirrors the selected PATH record (path, a local of
+// setFileObject): the record at the hinted index, or the first later one that
+// is neither PARENT nor UNKNOWN.
+//@ loop 0 invariant path == event.Paths[pathIndex]
+//@ witness[C09] isNil(result0) ==> exists j int :: lo(event.Paths) + pathIndex <= j && j < hi(event.Paths) && path == at(event.Paths, j)
+//@ witness[C09] isNil(result0) && "name" in path ==> event.File.Path == path["name"] && event.Summary.Object.Primary == path["name"]
+//@ witness[C09] isNil(result0) && "inode" in path ==> event.File.Inode == path["inode"]
+//@ witness[C09] isNil(result0) && "rdev" in path ==> event.File.Device == path["rdev"]
+//@ witness[C09] isNil(result0) && "ouid" in path ==> event.File.UID == path["ouid"]
+//@ witness[C09] isNil(result0) && "ogid" in path ==> event.File.GID == path["ogid"]
+// object type against the file-type bits of st_mode (S_IFMT = 0170000)
+//@ witness[C09] isNil(result0) && "mode" in path && strUval(path["mode"], 8) < 65536 && (strUval(path["mode"], 8) / 4096) % 16 == 8 ==> event.Summary.Object.Type == "file"
+//@ witness[C09,objtype] isNil(result0) && "mode" in path && strUval(path["mode"], 8) < 65536 && (strUval(path["mode"], 8) / 4096) % 16 == 4 ==> event.Summary.Object.Type == "directory"
+//@ witness[C09,objtype] isNil(result0) && "mode" in path && strUval(path["mode"], 8) < 65536 && (strUval(path["mode"], 8) / 4096) % 16 == 2 ==> event.Summary.Object.Type == "character-device"
+//@ witness[C09,objtype] isNil(result0) && "mode" in path && strUval(path["mode"], 8) < 65536 && (strUval(path["mode"], 8) / 4096) % 16 == 6 ==> event.Summary.Object.Type == "block-device"
+//@ witness[C09,objtype] isNil(result0) && "mode" in path && strUval(path["mode"], 8) < 65536 && (strUval(path["mode"], 8) / 4096) % 16 == 1 ==> event.Summary.Object.Type == "named-pipe"
+//@ witness[C09,objtype] isNil(result0) && "mode" in path && strUval(path["mode"], 8) < 65536 && (strUval(path["mode"], 8) / 4096) % 16 == 10 ==> event.Summary.Object.Type == "symlink"
+//@ witness[C09,objtype] isNil(result0) && "mode" in path && strUval(path["mode"], 8) < 65536 && (strUval(path["mode"], 8) / 4096) % 16 == 12 ==> event.Summary.Object.Type == "socket"
+// (the same facts as invariants of the last loop, which only adds SELinux labels to the fresh File)
+//@ loop 1 invariant exists j int :: lo(event.Paths) + pathIndex <= j && j < hi(event.Paths) && path == at(event.Paths, j)
+//@ loop 1 invariant[C09] "name" in path ==> event.File.Path == path["name"] && event.Summary.Object.Primary == path["name"]
+//@ loop 1 invariant[C09] "inode" in path ==> event.File.Inode == path["inode"]
+//@ loop 1 invariant[C09] "rdev" in path ==> event.File.Device == path["rdev"]
+//@ loop 1 invariant[C09] "ouid" in path ==> event.File.UID == path["ouid"]
+//@ loop 1 invariant[C09] "ogid" in path ==> event.File.GID == path["ogid"]
+//@ loop 1 invariant[C09] "mode" in path && strUval(path["mode"], 8) < 65536 && (strUval(path["mode"], 8) / 4096) % 16 == 8 ==> event.Summary.Object.Type == "file"
+//@ loop 1 invariant[C09,objtype] "mode" in path && strUval(path["mode"], 8) < 65536 && (strUval(path["mode"], 8) / 4096) % 16 == 4 ==> event.Summary.Object.Type == "directory"
+//@ loop 1 invariant[C09,objtype] "mode" in path && strUval(path["mode"], 8) < 65536 && (strUval(path["mode"], 8) / 4096) % 16 == 2 ==> event.Summary.Object.Type == "character-device"
+//@ loop 1 invariant[C09,objtype] "mode" in path && strUval(path["mode"], 8) < 65536 && (strUval(path["mode"], 8) / 4096) % 16 == 6 ==> event.Summary.Object.Type == "block-device"
+//@ loop 1 invariant[C09,objtype] "mode" in path && strUval(path["mode"], 8) < 65536 && (strUval(path["mode"], 8) / 4096) % 16 == 1 ==> event.Summary.Object.Type == "named-pipe"
+//@ loop 1 invariant[C09,objtype] "mode" in path && strUval(path["mode"], 8) < 65536 && (strUval(path["mode"], 8) / 4096) % 16 == 10 ==> event.Summary.Object.Type == "symlink"
+//@ loop 1 invariant[C09,objtype] "mode" in path && strUval(path["mode"], 8) < 65536 && (strUval(path["mode"], 8) / 4096) % 16 == 12 ==> event.Summary.Object.Type == "socket"
+//
+//@ func aucoalesce.addProcess
+//@ frame-fresh[C15]
+//@ requires event != nil && event.Data != nil
+//@ modifies event.*, mapOf(event.Data)
